@@ -322,7 +322,7 @@ def _swap_one_literal(ast, rng, done=None):
 STYLES = ["item", "item", "attr", "mgr"]
 
 DEFAULT_WEIGHTS = {"setv": 30, "sete": 30, "inpl": 12, "unreg": 6, "setc": 5,
-                   "regf": 4, "unregf": 2, "regk": 3, "unregk": 1, "setfunc": 2}
+                   "regf": 4, "unregf": 2, "regk": 3, "unregk": 1, "setfunc": 2, "copyfrom": 0}
 
 
 def swarm_config(rng, tier="quick", **over):
@@ -491,7 +491,7 @@ class HistoryGen:
                 return None
             slot = rng.choice(["add3", "lin", "mix"])
             return ("setfunc", slot, rng.choice([slot, slot + "b"]))
-        if kind == "load":
+        if kind in ("load", "copyfrom"):
             n = rng.randint(1, 3)
             pairs = []
             # deferred equality a._eq(b) prints as (a == b), which evaluates to a bool (KF-2, C11): kept out of
@@ -504,7 +504,11 @@ class HistoryGen:
                 p = rng.choice(pairs)[0]
                 pairs.insert(rng.randint(0, len(pairs)), (p, self.eg.gen(spec.leaf_type[p], 1, True)))
             self.eg.no_eqne = keep
-            return ("load", tuple(pairs), rng.random() < 0.7)
+            if kind == "copyfrom":
+                # the same definitions made in ANOTHER manager over an equivalent container tree and copied label by label
+                seen = set()
+                pairs = [x for x in pairs if not (x[0] in seen or seen.add(x[0]))]
+            return (kind, tuple(pairs), rng.random() < 0.7)
         if kind in ("refresh", "cleanup", "verify"):
             return (kind,)
         return None
